@@ -7,9 +7,9 @@ BASELINE_OFF = "cd /repo && cargo test --workspace --no-fail-fast --offline"
 
 CHECKS = {
  "C02": ("exploration", "4.2", "seeded schedule search over the real streaming compressor (pipe scenario), reference-inflater oracle",
-         "Seeded search over call schedules (chunking incl. empty chunks, output grants down to 1 byte, buffer or callback sink, all flush modes, Finish sticky) of the real CompressorOxide through compress / compress_to_output / deflate; every run is decoded by an independent reference inflater and compared with the input, with count and liveness invariants after every call. Sampling, not proof."),
+         "Seeded search over call schedules (chunking incl. empty chunks, output grants down to 1 byte, buffer or callback sink, all flush modes, Finish sticky) and configurations (4 constructors, setters before the stream, reuse after reset) of the real CompressorOxide through compress / compress_to_output / deflate, plus deterministic families (block-boundary calls, lazy-match chains on self-flush positions, a flush after every input position of short inputs, all 4096 phases of the code-buffer-full instant); every run is decoded by an independent reference inflater and compared with the input, with count and liveness invariants after every call. Sampling, not proof."),
  "C03": ("exploration", "4.3", "grammar-driven foreign encoder x delivery schedules over all decoder entry points, reference-inflater oracle",
-         "Fault-free configuration of the decoder simulation: grammar-built valid streams (constructs miniz never emits) and crate-built streams are delivered under seeded schedules to every decoder entry point; strict equality with generator ground truth and the reference inflater."),
+         "Fault-free configuration of the decoder simulation: grammar-built valid streams (constructs miniz never emits) and crate-built streams are delivered under seeded schedules to every decoder entry point, with the ignore-checksum and stop-at-block-boundary flags and decoder objects that served an earlier (possibly failed or abandoned) stream as further dimensions; strict equality with generator ground truth and the reference inflater."),
  "C04": ("fault_enumeration", "4.4", "channel fault injection (truncate/flip/insert/delete/dup/swap, targeted RFC violations) x schedules, verdict vs reference inflater",
          "Fault-injecting configuration: mutated and grammar-built invalid streams under seeded chunkings; the real decoder's accept/reject verdict, output and consumed count are compared with the reference inflater (ring semantics in ring mode); pure truncations must never be rejected as corrupt."),
  "C05": ("fault_enumeration", "4.5", "arbitrary bytes x arbitrary call histories on one decoder object, release and debug builds, process watchdog",
@@ -17,11 +17,11 @@ CHECKS = {
  "C06": ("fault_enumeration", "4.6", "trailing-garbage channel fault x cut points around the stream end, exact-length oracle",
          "Valid streams followed by unrelated bytes, delivered with cuts around the stream end to the core decoder (flat, ring) and inflate(); total consumed must equal the generator's exact encoded length."),
  "C07": ("exploration", "4.7", "suspend/resume schedule families (all single cuts, k-byte feeding, all budgets) + seeded partitions vs one-call run of the same decoder",
-         "Deterministic schedule families on short streams plus seeded random partitions/budgets on longer ones; output, verdict and consumed are compared with the one-call run of the same real decoder."),
+         "Deterministic schedule families on short streams (every cut, every pair of cuts, every first-call budget, the cut x budget grid, k-byte feeding, constant budgets) plus seeded random partitions/budgets on longer ones, over the core decoder (flat, rings 2^k up to 2^17), inflate() and the slice-iterator helper; output, verdict and consumed are compared with the one-call run of the same real decoder."),
  "C08": ("exploration", "4.8", "canary-painted output buffers and per-call budgets under seeded schedules",
          "Every decode call is bracketed by a full comparison of the output slice against a shadow copy; status truthfulness and the limit semantics of the vector functions are asserted."),
  "C09": ("fault_enumeration", "4.9", "exhaustive 65536-header sweep x buffer modes + trailer/body corruption under schedules; producer-side header/trailer probes",
-         "All two-byte zlib headers in front of a valid body for flat and every ring size; trailer and body corruption under chunked delivery; producer side checked on every zlib-format compressor run."),
+         "All two-byte zlib headers in front of a valid body for flat and every ring size 2^8..2^17; trailer and body corruption under chunked delivery; producer side checked on every zlib-format compressor run."),
  "C10": ("exploration", "4.10", "token trace of compressor output under schedules, reference inflater + system zlib as independent decoders",
          "Everything any compressor driver emits is parsed by the reference inflater (token level) and by system zlib; mode clauses (stored-only, fixed, huffman-only, RLE, filtered) and the redundancy clause are evaluated on the trace."),
  "C11": ("exploration", "4.11", "pipeline with a window-limited consumer (zlib inflateInit2(0), crate ring decoder of the declared size)",
